@@ -243,4 +243,47 @@ theorem counterexample_live_tree :
       | .ok (m, fs) => some ((content m fs.pv).props.contains 10000)
       | .error _ => none) = some false := by decide
 
+/-! ### leaf splits during property sinking (not covered by `crash_prefix`: hypothesis `NoSplit`)
+
+Demonstrated on the model with a small leaf capacity (`leafCap := 4`; the real capacity is 281, the
+thorough tier of the stream runs the same scenarios on the real engine with 150–350 properties):
+* a split in a NEW tree (first compaction) is harmless at every step — the tree is not reachable
+  before the manifest is durable;
+* a split of the LIVE leaf rewrites its left half IN PLACE and syncs it (with the next page
+  allocation) long before the manifest: from that write on, until the system transaction is
+  complete in the log, EVERY crash image — plain process death included — has lost the entries of
+  the right half except its first (the old manifest enters at the old root leaf, the cursor only
+  looks at slot 0 of the right sibling).  This is the known finding C01-live-tree-in-place; no
+  selection of unsynced writes avoids it once the sync has happened. -/
+
+def cfgSplit : Cfg := { cfgOfSource with leafCap := 4 }
+def split_tx0 : Tx := ⟨[1001], [], [10000, 10001, 10002, 10003, 10004, 10005]⟩
+def split_tx1 : Tx := ⟨[1001], [], [10000, 10001, 10002, 10003]⟩
+def split_tx2 : Tx := ⟨[2001], [], [20000]⟩
+
+def splitProps (rounds : List Round) : Option (List Nat) :=
+  match recover cfgSplit (afterRounds cfgSplit (created cfgSplit) rounds) with
+  | .ok (m, fs) => some (content m fs.pv).props
+  | .error _ => none
+
+/-- new tree, 6 properties, capacity 4 (two splits, 80 I/O steps): all six are readable after a
+    death at ANY step, by process death and by the power-loss selections tried here -/
+theorem split_new_tree_every_step :
+    (List.range 81).all (fun k =>
+      (splitProps [⟨[.commit split_tx0], .inCompact k, .proc⟩]).map List.length == some 6 &&
+      (splitProps [⟨[.commit split_tx0], .inCompact k, .power [.keep, .drop, .keep] 0 false⟩]).map List.length == some 6 &&
+      (splitProps [⟨[.commit split_tx0], .inCompact k, .power [.drop, .keep] 0 false⟩]).map List.length == some 6) = true := by
+  decide
+
+/-- live leaf with 4 entries, one more property sunk by the second compaction (split at step 21):
+    process death at step 20 loses nothing; process death at step 30 (after the in-place left half
+    was synced, before the manifest) has lost the acknowledged, already compacted 10003; once the
+    system transaction is in the log (step 44) everything is there again. -/
+theorem counterexample_live_split :
+    FreshHist [] [⟨[.commit split_tx1, .compact, .commit split_tx2], .inCompact 30, .proc⟩] ∧
+    splitProps [⟨[.commit split_tx1, .compact, .commit split_tx2], .inCompact 20, .proc⟩] = some [20000, 10000, 10001, 10002, 10003] ∧
+    splitProps [⟨[.commit split_tx1, .compact, .commit split_tx2], .inCompact 30, .proc⟩] = some [20000, 10000, 10001, 10002] ∧
+    splitProps [⟨[.commit split_tx1, .compact, .commit split_tx2], .inCompact 44, .proc⟩] = some [10000, 10001, 10002, 10003, 20000] := by
+  decide
+
 end Nervus.Props.C02
